@@ -23,8 +23,11 @@
 //	  - every qualified subset (independent brute-force evaluation of the policy) reconstructs one
 //	    secret s with s·G = public key, also in the exponent from the public shares; every
 //	    unqualified subset is refused;
-//	  - a shard survives CBOR store/reload unchanged; a stored shard whose share was altered is
-//	    refused on reload / by NewBaseShard;
+//	  - every serialisable key-material object (BaseShard, BasePublicMaterial, schnorr / dkls23 /
+//	    bls shard and public-material wrappers) survives CBOR store / reload — into a fresh value and
+//	    into a value that held another run's key — with every public accessor unchanged and the
+//	    predicates still true on the reloaded value (keymat.go); a shard whose share was altered
+//	    is refused by NewBaseShard;
 //	  - runs on different tapes give different keys, the same tapes the same key; the runner API
 //	    over an in-memory delivery gives the same shards as the round-by-round run.
 package main
@@ -47,7 +50,6 @@ import (
 	"github.com/bronlabs/bron-crypto/pkg/base/curves/p256"
 	"github.com/bronlabs/bron-crypto/pkg/base/curves/pairable/bls12381"
 	"github.com/bronlabs/bron-crypto/pkg/base/curves/pasta"
-	"github.com/bronlabs/bron-crypto/pkg/base/serde"
 	"github.com/bronlabs/bron-crypto/pkg/mpc"
 	"github.com/bronlabs/bron-crypto/pkg/mpc/sharing"
 	"github.com/bronlabs/bron-crypto/pkg/mpc/sharing/scheme/kw"
@@ -131,18 +133,22 @@ type groupT struct {
 
 func allGroups() []*groupT {
 	return []*groupT{
-		mkGroup("k256", k256.NewCurve()),
-		mkGroup("bls12381g1", bls12381.NewG1()),
-		mkGroup("p256", p256.NewCurve()),
-		mkGroup("edwards25519", edwards25519.NewPrimeSubGroup()),
-		mkGroup("pallas", pasta.NewPallasCurve()),
-		mkGroup("vesta", pasta.NewVestaCurve()),
-		mkGroup("bls12381g2", bls12381.NewG2()),
+		mkGroup("k256", k256.NewCurve(), dklsReload[*k256.Point, *k256.BaseFieldElement, *k256.Scalar]),
+		mkGroup("bls12381g1", bls12381.NewG1(),
+			blsReload[*bls12381.PointG1, *bls12381.BaseFieldElementG1, *bls12381.PointG2, *bls12381.BaseFieldElementG2, *bls12381.GtElement, *bls12381.Scalar]),
+		mkGroup("p256", p256.NewCurve(), dklsReload[*p256.Point, *p256.BaseFieldElement, *p256.Scalar]),
+		mkGroup("edwards25519", edwards25519.NewPrimeSubGroup(), nil),
+		mkGroup("pallas", pasta.NewPallasCurve(), nil),
+		mkGroup("vesta", pasta.NewVestaCurve(), nil),
+		mkGroup("bls12381g2", bls12381.NewG2(),
+			blsReload[*bls12381.PointG2, *bls12381.BaseFieldElementG2, *bls12381.PointG1, *bls12381.BaseFieldElementG1, *bls12381.GtElement, *bls12381.Scalar]),
 	}
 }
 
-func mkGroup[E algebra.PrimeGroupElement[E, S], S algebra.PrimeFieldElement[S]](name string, g algebra.PrimeGroup[E, S]) *groupT {
-	return &groupT{name: name, run: func(a vh.Args, cs caseSpec) *caseRun { return runCase(a, g, cs) }}
+// extra is the group-specific part of the key-material reload check (dkls23 / bls wrappers), nil if none.
+func mkGroup[E algebra.PrimeGroupElement[E, S], S algebra.PrimeFieldElement[S]](name string, g algebra.PrimeGroup[E, S],
+	extra func(env kmEnv[E, S], cur, other *mpc.BaseShard[E, S]) []kmFail) *groupT {
+	return &groupT{name: name, run: func(a vh.Args, cs caseSpec) *caseRun { return runCase(a, g, cs, extra) }}
 }
 
 func compilerOf(name string) compiler.Name {
@@ -276,7 +282,8 @@ func execute[E algebra.PrimeGroupElement[E, S], S algebra.PrimeFieldElement[S]](
 	return rd, nil
 }
 
-func runCase[E algebra.PrimeGroupElement[E, S], S algebra.PrimeFieldElement[S]](a vh.Args, g algebra.PrimeGroup[E, S], cs caseSpec) *caseRun {
+func runCase[E algebra.PrimeGroupElement[E, S], S algebra.PrimeFieldElement[S]](a vh.Args, g algebra.PrimeGroup[E, S], cs caseSpec,
+	extra func(env kmEnv[E, S], cur, other *mpc.BaseShard[E, S]) []kmFail) *caseRun {
 	out := &caseRun{spec: cs, class: fmt.Sprintf("%s/%s/%c/%s/%s", cs.proto, cs.group, cs.pol.fam, cs.comp, cs.mode)}
 	caseText := cs.text()
 	prop := func(key, detail string) {
@@ -512,31 +519,42 @@ func runCase[E algebra.PrimeGroupElement[E, S], S algebra.PrimeFieldElement[S]](
 	if !haveSecret {
 		prop("no-qualified-set", "no subset of the shareholders reconstructs")
 	}
-	// ---- P5: store / reload
+	// ---- P5: store / reload of every serialisable key-material object (keymat.go)
+	env := kmEnv[E, S]{G: G, holders: ids, scheme: scheme}
 	for pi, id := range ids {
-		if a.Tier != "thorough" && pi != 0 && pi != len(ids)-1 {
-			continue // quick tier: first and last party
+		if a.Tier != "thorough" && pi != cs.idx%len(ids) {
+			continue // quick tier: one party, rotating with the case index
 		}
 		sh := rd.shards[id]
-		var data, data2 []byte
-		var back *mpc.BaseShard[E, S]
-		var e1, e2, e3 error
+		var other *mpc.BaseShard[E, S]
+		var oerr error
+		if pn := vh.Safely(func() { other, oerr = otherKey(a, cs, scheme, id) }); pn != "" || oerr != nil {
+			prop("other-key-dealing-fails", fmt.Sprintf("%v %s", oerr, pn))
+			break
+		}
+		var fails []kmFail
 		pn := vh.Safely(func() {
-			data, e1 = serde.MarshalCBOR(sh)
-			if e1 == nil {
-				back, e2 = serde.UnmarshalCBOR[*mpc.BaseShard[E, S]](data)
+			fails = baseReload(env, sh, other)
+			wrappers := a.Tier == "thorough" || cs.idx%2 == 0 || extra == nil
+			if wrappers {
+				fails = append(fails, schnorrReload(env, sh, other)...)
 			}
-			if e1 == nil && e2 == nil {
-				data2, e3 = serde.MarshalCBOR(back)
+			if extra != nil && (a.Tier == "thorough" || cs.idx%2 == 1) {
+				fails = append(fails, extra(env, sh, other)...)
 			}
 		})
-		if pn != "" || e1 != nil || e2 != nil || e3 != nil {
-			prop("shard-cbor-reload", fmt.Sprintf("party %d: store/reload fails: %v %v %v %s", uint64(id), e1, e2, e3, pn))
-			continue
+		if pn != "" {
+			prop("keymaterial-reload-panics", pn)
 		}
-		if !back.Equal(sh) || !sh.Equal(back) || string(data) != string(data2) || dgen.ShardText(back) != dgen.ShardText(sh) ||
-			!back.PublicKeyValue().Equal(sh.PublicKeyValue()) || !back.Share().Equal(sh.Share()) {
-			prop("shard-cbor-reload", fmt.Sprintf("party %d: reloaded shard differs", uint64(id)))
+		for _, f := range fails {
+			key := "keymaterial-reload-accessor-differs"
+			if f.accessor == "PublicKey()" {
+				key = "keymaterial-reload-stale-publickey" // the wrapper's cached PublicKey() only
+			}
+			if f.mode == "build" || f.mode == "store" || f.accessor == "UnmarshalCBOR" {
+				key = "keymaterial-reload-fails"
+			}
+			prop(key, fmt.Sprintf("%s of party %d, reload %s: %s differs (%s)", f.obj, uint64(id), f.mode, f.accessor, f.detail))
 		}
 	}
 	// ---- tampered share: NewBaseShard and reload
